@@ -1,9 +1,11 @@
 package harness
 
 import (
+	"context"
 	"encoding/json"
 	"fmt"
 	"sort"
+	"sync"
 	"testing"
 	"testing/synctest"
 	"time"
@@ -11,6 +13,8 @@ import (
 	ocr2keepersv3 "github.com/smartcontractkit/chainlink-automation/pkg/v3"
 	"github.com/smartcontractkit/chainlink-automation/pkg/v3/flows"
 	"github.com/smartcontractkit/chainlink-automation/pkg/v3/plugin/hooks"
+	"github.com/smartcontractkit/chainlink-automation/pkg/v3/preprocessors"
+	"github.com/smartcontractkit/chainlink-automation/pkg/v3/random"
 	"github.com/smartcontractkit/chainlink-automation/pkg/v3/stores"
 	"github.com/smartcontractkit/chainlink-automation/pkg/v3/types"
 	simutil "github.com/smartcontractkit/chainlink-automation/tools/simulator/util"
@@ -24,10 +28,23 @@ import (
 // (stores.NewProposalQueue), both created inside a synctest bubble so that
 // timeFn/time.Now/time.Since are virtual.  "outcome" operations go through the
 // real pre-build hooks (hooks.NewRemoveFromMetadataHook, hooks.NewAddToProposalQHook)
-// in the order ocr3Plugin.Observation runs them.
+// in the order ocr3Plugin.Observation runs them.  The store has a life cycle (mstart / mclose), the build hooks of
+// the observation and the proposal filterer of the recovery proposal flow are viewers of its pending sets
+// (observe / filter); generators for these dynamics are in c11_dyn_test.go, the plugin-level ones in
+// c11_plugin_test.go.
 
 type c11Op struct {
-	Op       string    `json:"op"` // add | remove | view | adv | enq | deq | outcome | start | tick
+	// add | remove | view | adv | enq | deq | outcome | start | tick | obs (plugin mode)
+	// mstart / mclose: MetadataStore.Start (in its own goroutine, as the service recoverer runs it) / Close on
+	//   the store of the history; everything else goes on whether or not the store is (already, still) running
+	// observe: the two build hooks of the observation (hooks.AddLogProposalsHook, hooks.AddConditionalProposalsHook;
+	//   ONE instance of each for the whole history, as the plugin holds them) run on a new observation, with the
+	//   limits and the keyed random source ocr3Plugin.Observation passes; result: the observation's proposals
+	// filter: the real proposal filterer (preprocessors.NewProposalFilterer, first stage of the recovery proposal
+	//   flow) of upkeep type T pre-processes payloads for Ps — or for the Ps of the earlier operation Ref (1-based);
+	//   result: the payloads that pass.  probe (plugin mode): the same through the node's own flow, see c11RunPlugin.
+	Op       string    `json:"op"`
+	Ref      int       `json:"ref,omitempty"`
 	Ps       []JProp   `json:"ps,omitempty"`
 	T        uint8     `json:"t"`
 	N        int       `json:"n"`
@@ -42,6 +59,17 @@ type c11Op struct {
 	Sleep   int64 `json:"sleep"`   // how long BuildPayloads takes (ns)
 	Fail    int   `json:"fail"`    // < 0: no error; otherwise it fails at argument index Fail % len(args)
 	Partial bool  `json:"partial"` // a failing call returns the payloads built so far with the error
+	// outcome / obs with Pick set: the surfaced proposals are chosen when the history runs, from what the node
+	// did with its LAST observation: up to PickN of Cand that it did not propose ("deferred": pending here, cut off
+	// by the observation limit, surfaced through other nodes) or that it did propose ("sent").  They go first
+	// into the latest round; the resolved history is written back into Surfaced (and Pick cleared), so the
+	// emitted case is an ordinary one.
+	// Pick "again": the previous outcome once more, unchanged.  Carry: the rounds after the latest one are the
+	// (resolved) history of the previous outcome.
+	Pick  string  `json:"pick,omitempty"`
+	PickN int     `json:"pick_n,omitempty"`
+	Cand  []JProp `json:"cand,omitempty"`
+	Carry bool    `json:"carry,omitempty"`
 }
 type c11Type struct {
 	UID string `json:"uid"`
@@ -55,6 +83,7 @@ type c11Input struct {
 	// (c11_stress_test.go)
 	Mode   string       `json:"mode,omitempty"`
 	Decoy  bool         `json:"decoy,omitempty"` // plugin mode: another instance of the same factory is built and closed first
+	Early  bool         `json:"early,omitempty"` // plugin mode: the leading add operations are fed before the services have started
 	Stress *c11StressIn `json:"stress,omitempty"`
 }
 type c11Impl struct {
@@ -68,6 +97,9 @@ type c11Impl struct {
 	Extra int `json:"extra"`
 	// plugin mode: an error returned by Observation / decoding
 	Err string `json:"err,omitempty"`
+	// mstart / mclose: "ok" (Start: runs; Close: no error), "refused" (the already-running / not-running error),
+	// anything else verbatim
+	Life []string `json:"life,omitempty"`
 	// stress mode
 	Exit  string          `json:"exit,omitempty"`  // "ok", "exit:<code>", "timeout"
 	Crash string          `json:"crash,omitempty"` // first "fatal error:" / "panic:" line of the child
@@ -82,14 +114,130 @@ const (
 
 // ---------------------------------------------------------------- run
 
+// c11Blocks is the block subscriber under the store of a history.  Unsubscribe does NOT close the channel
+// (a subscriber may or may not; fakeBlocks does): the same instance is started again after Close, and Start
+// reads that channel.
+type c11Blocks struct {
+	mu   sync.Mutex
+	next int
+	subs map[int]chan ocr2keepers.BlockHistory
+}
+
+func (f *c11Blocks) Subscribe() (int, chan ocr2keepers.BlockHistory, error) {
+	f.mu.Lock()
+	defer f.mu.Unlock()
+	if f.subs == nil {
+		f.subs = map[int]chan ocr2keepers.BlockHistory{}
+	}
+	f.next++
+	ch := make(chan ocr2keepers.BlockHistory, 100)
+	f.subs[f.next] = ch
+	return f.next, ch, nil
+}
+func (f *c11Blocks) Unsubscribe(id int) error {
+	f.mu.Lock()
+	defer f.mu.Unlock()
+	delete(f.subs, id)
+	return nil
+}
+func (f *c11Blocks) Start(context.Context) error { return nil }
+func (f *c11Blocks) Close() error                { return nil }
+
+// c11IdleCoordinator: nothing is in flight in these histories (what the coordinator withholds is C07's subject)
+type c11IdleCoordinator struct{}
+
+func (c11IdleCoordinator) PreProcess(_ context.Context, ps []ocr2keepers.UpkeepPayload) ([]ocr2keepers.UpkeepPayload, error) {
+	return ps, nil
+}
+func (c11IdleCoordinator) Accept(ocr2keepers.ReportedUpkeep) bool         { return true }
+func (c11IdleCoordinator) ShouldTransmit(ocr2keepers.ReportedUpkeep) bool { return true }
+func (c11IdleCoordinator) FilterResults(rs []ocr2keepers.CheckResult) ([]ocr2keepers.CheckResult, error) {
+	return rs, nil
+}
+func (c11IdleCoordinator) FilterProposals(ps []ocr2keepers.CoordinatedBlockProposal) ([]ocr2keepers.CoordinatedBlockProposal, error) {
+	return ps, nil
+}
+
+// c11Resolve fills in the surfaced history of an outcome / obs operation that depends on the run (see c11Op.Pick):
+// lastObs = the node's last observation, lastSf = the (resolved) history of the previous outcome.
+func c11Resolve(op *c11Op, lastObs []JProp, lastSf [][]JProp) {
+	if op.Pick == "" && !op.Carry {
+		return
+	}
+	defer func() { op.Pick, op.PickN, op.Cand, op.Carry = "", 0, nil, false }()
+	if op.Pick == "again" { // the previous outcome once more, unchanged
+		op.Surfaced = make([][]JProp, len(lastSf))
+		for i := range lastSf {
+			op.Surfaced[i] = append([]JProp{}, lastSf[i]...)
+		}
+		return
+	}
+	var latest []JProp
+	var older [][]JProp
+	if len(op.Surfaced) > 0 {
+		latest, older = op.Surfaced[0], op.Surfaced[1:]
+	}
+	if op.Carry {
+		older = lastSf
+	}
+	if len(older) > ocr2keepersv3.OutcomeSurfacedProposalsRoundHistoryLimit-1 {
+		older = older[:ocr2keepersv3.OutcomeSurfacedProposalsRoundHistoryLimit-1]
+	}
+	used := map[string]bool{} // an outcome carries a work id once over its whole history
+	for _, round := range older {
+		for _, p := range round {
+			used[p.WID] = true
+		}
+	}
+	inLast := map[string]bool{}
+	for _, p := range lastObs {
+		inLast[p.WID] = true
+	}
+	var round []JProp
+	if op.Pick == "deferred" || op.Pick == "sent" {
+		n := 0
+		for _, p := range op.Cand {
+			if n >= op.PickN {
+				break
+			}
+			if used[p.WID] || inLast[p.WID] != (op.Pick == "sent") {
+				continue
+			}
+			used[p.WID] = true
+			round = append(round, p)
+			n++
+		}
+	}
+	for _, p := range latest {
+		if !used[p.WID] {
+			used[p.WID] = true
+			round = append(round, p)
+		}
+	}
+	if len(round) > ocr2keepersv3.OutcomeSurfacedProposalsLimit {
+		round = round[:ocr2keepersv3.OutcomeSurfacedProposalsLimit]
+	}
+	if round == nil {
+		round = []JProp{}
+	}
+	op.Surfaced = [][]JProp{round}
+	for _, o := range older {
+		op.Surfaced = append(op.Surfaced, append([]JProp{}, o...))
+	}
+}
+
 func c11Run(t *testing.T, in *c11Input) c11Impl {
-	ms, err := stores.NewMetadataStore(&fakeBlocks{}, utg)
+	ms, err := stores.NewMetadataStore(&c11Blocks{}, utg)
 	if err != nil {
 		t.Fatalf("NewMetadataStore: %v", err)
 	}
 	pq := stores.NewProposalQueue(utg)
 	rmHook := hooks.NewRemoveFromMetadataHook(ms, quietLogger)
 	addHook := hooks.NewAddToProposalQHook(pq, quietLogger)
+	logHook := hooks.NewAddLogProposalsHook(ms, c11IdleCoordinator{}, quietLogger)
+	condHook := hooks.NewAddConditionalProposalsHook(ms, c11IdleCoordinator{}, quietLogger)
+	digest := [32]byte{0xc1, 0x1}
+	seq := uint64(10)
 
 	seen := map[string]uint8{}
 	note := func(ps []JProp) {
@@ -102,13 +250,24 @@ func c11Run(t *testing.T, in *c11Input) c11Impl {
 	impl := c11Impl{Outs: make([][]JProp, len(in.Ops)), Aux: make([][]JProp, len(in.Ops))}
 	held := map[int][]ocr2keepers.CoordinatedBlockProposal{} // Dequeue results, kept like a flow keeps its batch
 	var rig *c11FlowRig
+	life := false
 	for _, op := range in.Ops {
-		if op.Op == "start" || op.Op == "tick" {
+		if (op.Op == "start" || op.Op == "tick") && rig == nil {
 			rig = newC11FlowRig(in, ms, pq)
-			break
+		}
+		if op.Op == "mstart" || op.Op == "mclose" {
+			life = true
 		}
 	}
-	for i, op := range in.Ops {
+	if life {
+		impl.Life = make([]string, len(in.Ops))
+	}
+	filterers := map[uint8]ocr2keepersv3.PreProcessor[ocr2keepers.UpkeepPayload]{}
+	var started chan error // the running Start call, if any
+	var lastObs []JProp
+	var lastSf [][]JProp
+	for i := range in.Ops {
+		op := &in.Ops[i]
 		switch op.Op {
 		case "add":
 			note(op.Ps)
@@ -123,6 +282,75 @@ func c11Run(t *testing.T, in *c11Input) c11Impl {
 				time.Sleep(time.Duration(op.D))
 				synctest.Wait() // whatever the flows' tickers started at instants passed has run
 			}
+		case "mstart":
+			done := make(chan error, 1)
+			go func() { done <- ms.Start(context.Background()) }()
+			synctest.Wait()
+			select {
+			case err := <-done:
+				if err != nil && err.Error() == "service already running" {
+					impl.Life[i] = "refused"
+				} else {
+					impl.Life[i] = fmt.Sprintf("Start returned at once: %v", err)
+				}
+			default:
+				impl.Life[i] = "ok"
+				started = done
+			}
+		case "mclose":
+			err := ms.Close()
+			switch {
+			case err == nil:
+				impl.Life[i] = "ok"
+			case err.Error() == "service not running":
+				impl.Life[i] = "refused"
+			default:
+				impl.Life[i] = "Close: " + err.Error()
+			}
+			synctest.Wait()
+			if err == nil && started != nil {
+				select {
+				case <-started:
+				default:
+					impl.Life[i] = "Close returned but Start still runs"
+				}
+				started = nil
+			}
+		case "filter":
+			ps := op.Ps
+			if op.Ref > 0 && op.Ref <= len(in.Ops) {
+				ps = in.Ops[op.Ref-1].Ps
+			}
+			note(ps)
+			f, ok := filterers[op.T]
+			if !ok {
+				f = preprocessors.NewProposalFilterer(ms, types.UpkeepType(op.T))
+				filterers[op.T] = f
+			}
+			var pls []ocr2keepers.UpkeepPayload
+			for _, p := range fromJProps(ps) {
+				pls = append(pls, ocr2keepers.UpkeepPayload{UpkeepID: p.UpkeepID, Trigger: p.Trigger, WorkID: p.WorkID})
+			}
+			passed, err := f.PreProcess(context.Background(), pls)
+			if err != nil {
+				impl.Err = "proposal filterer: " + err.Error()
+			}
+			impl.Outs[i] = []JProp{}
+			for _, pl := range passed {
+				impl.Outs[i] = append(impl.Outs[i], toJProp(ocr2keepers.CoordinatedBlockProposal{UpkeepID: pl.UpkeepID, Trigger: pl.Trigger, WorkID: pl.WorkID}))
+			}
+		case "observe":
+			seq++
+			rsrc := random.GetRandomKeySource(digest[:], seq)
+			obs := ocr2keepersv3.AutomationObservation{}
+			if err := logHook.RunHook(&obs, ocr2keepersv3.ObservationLogRecoveryProposalsLimit, rsrc); err != nil {
+				impl.Err = "add-log-proposals hook: " + err.Error()
+			}
+			if err := condHook.RunHook(&obs, ocr2keepersv3.ObservationConditionalsProposalsLimit, rsrc); err != nil {
+				impl.Err = "add-conditional-proposals hook: " + err.Error()
+			}
+			impl.Outs[i] = toJProps(obs.UpkeepProposals)
+			lastObs = impl.Outs[i]
 		case "start":
 			rig.start(t, op.T)
 		case "tick":
@@ -140,6 +368,8 @@ func c11Run(t *testing.T, in *c11Input) c11Impl {
 			impl.Outs[i] = toJProps(ps)
 			held[i] = ps
 		case "outcome":
+			c11Resolve(op, lastObs, lastSf)
+			lastSf = op.Surfaced
 			outcome := ocr2keepersv3.AutomationOutcome{}
 			for _, round := range op.Surfaced {
 				note(round)
@@ -150,6 +380,10 @@ func c11Run(t *testing.T, in *c11Input) c11Impl {
 		default:
 			t.Fatalf("unknown op %q", op.Op)
 		}
+	}
+	if started != nil {
+		_ = ms.Close()
+		synctest.Wait()
 	}
 	if rig != nil {
 		rig.finish(in, &impl)
@@ -1009,6 +1243,9 @@ func TestC11(t *testing.T) {
 	for _, in := range c11PluginEdge() {
 		runOne("edge", in)
 	}
+	for _, in := range c11DynEdge() {
+		runOne("edge", in)
+	}
 	r := NewRng(seed())
 	n := tierN(3000, 30000)
 	for i := 0; i < n; i++ {
@@ -1023,6 +1260,29 @@ func TestC11(t *testing.T) {
 	rp := NewRng(seed() ^ 0x11c11)
 	for i, np := 0, tierN(150, 1500); i < np; i++ {
 		runOne("gen", c11GenPlugin(rp, em))
+	}
+	// dynamics (c11_dyn_test.go; own streams): the store's life cycle, the build hooks over more pending proposals
+	// than an observation carries, bursts of hundreds of pending proposals draining while absent work ids are removed
+	rl := NewRng(seed() ^ 0x11fe)
+	for i, nl := 0, tierN(250, 2500); i < nl; i++ {
+		runOne("gen", c11GenLife(rl, em))
+	}
+	ro := NewRng(seed() ^ 0x0b5e)
+	for i, no := 0, tierN(250, 2500); i < no; i++ {
+		runOne("gen", c11GenObserve(ro, em))
+	}
+	rb := NewRng(seed() ^ 0xb0457)
+	for i, nb := 0, tierN(30, 300); i < nb; i++ {
+		runOne("gen", c11GenBurst(rb, em))
+	}
+	// the same at plugin level: Observation after Observation on one instance
+	rw := NewRng(seed() ^ 0x31de)
+	for i, nw := 0, tierN(60, 600); i < nw; i++ {
+		runOne("gen", c11GenPluginWide(rw, em))
+	}
+	rpb := NewRng(seed() ^ 0xb0458)
+	for i, nb := 0, tierN(6, 60); i < nb; i++ {
+		runOne("gen", c11GenPluginBurst(rpb, em))
 	}
 	// concurrent remove / add / view in a child process (a runtime abort cannot be recovered in-process)
 	for _, in := range c11StressInputs(seed(), tierN(24, 120)) {
